@@ -52,8 +52,14 @@ def gen_case(rng, i):
         m = int(rng.integers(1 if name != "Krum" else 3, 6))
         n = int(rng.integers(m, m + 6))
         # IMTL-G / ConFIG: condition numbers up to the limit of what their guards judge (tolerance grows with it)
-        cmax = 3.4 if name in ("IMTLG", "ConFIG") else 2
-        J = M.well_conditioned(rng, m, n, cond=float(10 ** rng.uniform(0, cmax)), scale=float(10 ** rng.uniform(-2, 3)))
+        cmax = 2
+        lo = 0.0
+        if name in ("IMTLG", "ConFIG"):
+            # up to the limit of what their guards judge; half of the cases in the last decade below it, where an implementation
+            # that squares the condition number (pinv through the Gramian) loses eps kappa^2 against the tolerated 10 eps kappa
+            cmax = 3.4 if dname == "float32" else 5.5
+            lo = cmax - 1 if rng.random() < 0.5 else 0.0
+        J = M.well_conditioned(rng, m, n, cond=float(10 ** rng.uniform(lo, cmax)), scale=float(10 ** rng.uniform(-2, 3)))
         klass = "well_conditioned"
     else:
         J, klass = M.gen(rng, max_m=6, max_n=8)
